@@ -4,3 +4,30 @@ pub mod semver;
 pub mod ren;
 pub mod cal;
 pub mod pep440;
+
+/// Well-formedness of an emitted version string (property C01): Some(reason) if malformed.
+pub fn malformed(fmt: &str, out: &str) -> Option<String> {
+    if !out.is_ascii() {
+        return Some("non-ASCII character".into());
+    }
+    if out.contains('\n') || out.contains('\r') {
+        return Some("more than one line".into());
+    }
+    match fmt {
+        "semver" => {
+            if out.starts_with('v') || !semver::accepts(out) {
+                return Some("not SemVer 2.0.0".into());
+            }
+        }
+        "pep440" => match pep440::parse(out) {
+            None => return Some("not PEP 440".into()),
+            Some(p) => {
+                if p.normal() != out {
+                    return Some(format!("not in PEP 440 normal form (normal form is {:?})", p.normal()));
+                }
+            }
+        },
+        _ => {}
+    }
+    None
+}
